@@ -4,7 +4,7 @@ behaviour-preserving rewrite from /verif/refactors/<name>/patch.diff (or /verif/
 edit on top of it (in the rewritten shape: a classifier struct, a higher-order helper, a forwarder ...)
 and expects the named rule of the named property to report something the rewrite alone does not.
 Scratch worktrees under /tmp, removed afterwards; /repo is never touched.
-usage: mutants_r5.py   (exit 0 when every mutant is reported)"""
+usage: mutants_r5.py [filter ...]   (exit 0 when every mutant is reported)"""
 import json, os, subprocess, sys, tempfile
 BD = os.environ.get("BD", "/verif/bin/bdcheck")
 ENV = dict(os.environ, GOFLAGS="-mod=mod", GOPROXY="off", GOSUMDB="off", GOTOOLCHAIN="local", GOWORK="off")
@@ -31,6 +31,18 @@ MUTANTS = [
   "a timed-out status request (made through two forwarders) answered as `not started`"),
  ("C20-r5", "internal/frontend/dag/action.go", "\t\tif node.Step.Name == stepName {", "\t\tif node.Step.Name != \"\" {", "C20", "C20.edit-footprint",
   "the remembered node is not chosen by the request's step name"),
+ ("C18-r5", "internal/persistence/local/dag_store.go", "\tif target.present() {\n\t\treturn \"\", target.tagged(errDAGFileAlreadyExists)\n\t}\n", "", "C18", "C18.create-guard",
+  "Create no longer asks the path type whether the file is there"),
+ ("C18-r5", "internal/persistence/local/dag_store.go", "\tif to == from || !to.present() {", "\tif to == from || to.present() {", "C18", "C18.rename-guard",
+  "the rename's existence test on the path type inverted"),
+ ("C18-r5", "internal/client/client.go", "\tif err = e.dataStore.HistoryStore().RemoveAll(loc); err == nil {\n\t\terr = e.dataStore.DAGStore().Delete(name)\n\t}\n\treturn err", "\t_ = e.dataStore.HistoryStore().RemoveAll(loc)\n\terr = e.dataStore.DAGStore().Delete(name)\n\treturn err", "C18", "C18.order",
+  "the definition is removed although the history removal failed (one error variable)"),
+ ("C18-r5", "internal/client/client.go", "\tif err = store.Rename(m.from, m.to); err != nil {\n\t\treturn nil, nil, err\n\t}\n", "\t_ = store.Rename(m.from, m.to)\n", "C18", "C18.order",
+  "the helper that renames the definition goes on when the rename failed"),
+ ("C03-r5", "internal/dag/scheduler/runstate.go", "\ts.canceled = true\n", "\ts.canceled = !s.canceled\n", "C05", "C05.cancel-flag-monotone",
+  "the cancel flag (now in an embedded struct) can be taken back"),
+ ("C03-r5", "internal/dag/scheduler/runstate.go", "\tfailed := s.lastError != nil\n", "\tfailed := s.lastError == nil\n", "C04", "C04.status-table",
+  "the predicate reading the last error (now in an embedded struct) inverted"),
  ("C02-r5", "internal/dag/executor/process.go", "\tgroup := -p.proc.Process.Pid", "\tgroup := p.proc.Process.Pid", "C05", "C05.kill-delivers",
   "the shared process type signals the leader only"),
  ("C02-r5", "internal/dag/executor/process.go", "exec.CommandContext(ctx, spec.program", "exec.CommandContext(context.Background(), spec.program", "C05", "C05.timeout-ctx",
@@ -50,6 +62,8 @@ def keys(tree, prop):
         return {"LOAD-ERROR " + (p.stdout + p.stderr)[-300:]}
 bad = 0
 for name, path, old, new, prop, rule, what in MUTANTS:
+    if len(sys.argv) > 1 and not any(a in name + " " + what for a in sys.argv[1:]):
+        continue
     wt = tempfile.mkdtemp(prefix="mut-", dir="/tmp"); os.rmdir(wt)
     try:
         subprocess.run(["git", "-C", "/repo", "worktree", "add", "--detach", wt, "HEAD"], check=True, capture_output=True)
